@@ -157,7 +157,7 @@ def _drive(spec, ref, ref_steps, parts, first_call_init, noise_rng, ctrl, res, l
         if noise_rng is not None:
             kind = _noise(noise_rng, node)
             res["faults"]["noise:" + kind] = res["faults"].get("noise:" + kind, 0) + 1
-    d = diff_tables(ref, node.tables())
+    d = diff_tables(ref, node.tables(), strict_types=True)
     if d is not None:
         return {"sig": "C09:tables-differ", "msg": f"{label} calls={calls[:8]}{'...' if len(calls) > 8 else ''} ({len(calls)} calls): {d}"}, nontrivial, calls
     return None, nontrivial, calls
@@ -274,7 +274,7 @@ def run_case(case):
                     if fin_expected:
                         break
                 if bad is None:
-                    d = diff_tables(ref, f.tables())
+                    d = diff_tables(ref, f.tables(), strict_types=True)
                     if d is not None:
                         bad = {"sig": "C09:tables-differ", "msg": f"fork@{tgt - K} then calls {calls}: {d}"}
                 res["days"] += ref_steps - (tgt - K)
